@@ -51,6 +51,19 @@ Theorem C12_ulam_counts (R : cring) s1 s2 (ts : list trans2) uniq inv x1 x2 y1 y
 Proof. exact (ulam2_counts s1 s2 ts uniq inv x1 x2 y1 y2). Qed.
 Print Assumptions C12_ulam_counts.
 
+(* 3b. Ulam (3-D): the same with the pairs of the first and of the third dimension found by numpy.unique and the middle core
+       counting the transitions per (pair, x2, y2, pair) *)
+Theorem C12_ulam3_counts (R : cring) s1 s2 s3 (ts : list trans3) uniq1 inv1 uniq2 inv2 x1 x2 x3 y1 y2 y3 :
+  (forall t, (t < length ts)%nat ->
+      (nth t inv1 0%nat < length uniq1)%nat /\ (nth t inv2 0%nat < length uniq2)%nat /\
+      nth (nth t inv1 0%nat) uniq1 (0, 0)%nat = (let '(a, _, _, d, _, _) := nth t ts t3d in (a, d)) /\
+      nth (nth t inv2 0%nat) uniq2 (0, 0)%nat = (let '(_, _, c, _, _, f) := nth t ts t3d in (c, f))) ->
+  elem (@ulam3_cores R s1 s2 s3 ts uniq1 inv1 uniq2 inv2) [x1; x2; x3] [y1; y2; y3] =
+  count_if (length ts) (fun t => let '(a, b, c, d, e, f) := nth t ts t3d in
+                                 Nat.eqb a x1 && Nat.eqb b x2 && Nat.eqb c x3 && Nat.eqb d y1 && Nat.eqb e y2 && Nat.eqb f y3).
+Proof. exact (ulam3_counts s1 s2 s3 ts uniq1 inv1 uniq2 inv2 x1 x2 x3 y1 y2 y3). Qed.
+Print Assumptions C12_ulam3_counts.
+
 (* non-vacuity: a cyclic 3-site pattern with unequal bond ranks evaluates as stated *)
 Definition exS (k : Z) (r : nat) : site ZIring :=
   @mksite ZIring 2 (fun x y => (Z.of_nat (x + 2 * y) + k, 0)%Z) r
